@@ -9,7 +9,8 @@
     / [index_of] / [bases] / [ideal_script] describe well-formed FASTA files,
     their true faidx entries and an ideal reader, independently of the code. *)
 From Coq Require Import ZArith List Bool.
-From Hts Require Import Base.Prim Generated Model.Fai Proofs.FaiBase Proofs.FaiIndex Proofs.FaiRead.
+From Hts Require Import Base.Prim Generated Model.Fai Proofs.FaiBase Proofs.FaiIndex Proofs.FaiRead Proofs.FaiTsv Proofs.FaiTsvIndex.
+From Coq Require Import Permutation.
 Open Scope Z_scope.
 
 (** For every well-formed FASTA structure (any number of records, any line
@@ -67,6 +68,24 @@ Theorem fai_read_zero_length :
     seq_script file (mkSeq e 0 0 0) sizes = ideal_script [] [] sizes.
 Proof. exact read_zero_length. Qed.
 Print Assumptions fai_read_zero_length.
+
+(** WriteTo then ReadFrom gives the index back — the same records, listed by
+    ascending Start — for every index with unique names that contain no
+    double quote, TAB, CR, LF ([good_rec]; encoding/csv is modelled as a plain
+    LF / TAB split, which is what it does on such names) and numbers in int64. *)
+Theorem fai_tsv_roundtrip :
+  forall idx, NoDup (map r_name idx) -> Forall good_rec idx ->
+    readfrom (writeto idx) = Ok (sort_by_start idx) /\ Permutation (sort_by_start idx) idx.
+Proof. exact tsv_roundtrip. Qed.
+Print Assumptions fai_tsv_roundtrip.
+
+(** The index NewIndex builds for a well-formed file survives WriteTo /
+    ReadFrom unchanged (no double quote in a name; file smaller than 2^63 bytes). *)
+Theorem fai_tsv_roundtrip_index :
+  forall f, wf f = true -> no_quote f = true -> zlen (render f) < 2 ^ 63 ->
+    readfrom (writeto (index_of f)) = Ok (index_of f).
+Proof. exact tsv_roundtrip_index. Qed.
+Print Assumptions fai_tsv_roundtrip_index.
 
 (** The offset has to advance over blank lines: the variant of NewIndex that
     skips them without counting (the code before the repair) gets a
